@@ -2,6 +2,7 @@ import ScrapliModel.Lemmas.Request
 import ScrapliModel.Lemmas.SelfClose
 import ScrapliModel.Lemmas.GoSem
 import ScrapliModel.Generated.BodiesRequest
+import ScrapliModel.Lemmas.BodiesRequest
 /-!
 # C03 — NETCONF requests on the wire are correctly framed and carry the caller's content
 
@@ -460,5 +461,18 @@ theorem generated_serialize_eq (ver : Version) (sc nh : Bool) (body r0 f0 : Byte
   unfold Gen.Bodies.Request.serialize serialize
   cases ver <;> cases sc <;> cases nh <;>
     simp [hne, h0, Go.copy_replicate, Go.fmtInt_len, HASH, LF]
+
+/-- the body of `ForceSelfClosingTags` as the translator renders it from the current source — the
+`range` over `emptyTags.FindAllSubmatch(b, -1)`, the eligibility test (`bytes.Equal` of the two tag
+names, `bytes.HasSuffix(…, "/")`), `fmt.Sprintf("<%s%s/>", …)` and one `bytes.ReplaceAll` per
+eligible match on the progressively rewritten buffer — never indexes a match out of range and
+computes `forceSelfClosingGo Match.eligible`, given that `FindAllSubmatch` returns the matches
+`findAll` finds (full text and the three groups; tied by the regex diff of the run) and that
+`bytes.ReplaceAll` with a non-empty `old` is `replaceAll` -/
+theorem generated_forceSelfClosingTags_eq (s : Bytes) :
+    Gen.Bodies.Request.forceSelfClosingTags (fun b => (findAll b.length b).map Match.groups) s
+      = some (forceSelfClosingGo Match.eligible s) := by
+  unfold Gen.Bodies.Request.forceSelfClosingTags Go.forRange forceSelfClosingGo
+  simp only [fsc_loop]
 
 end Scrapli.Netconf.C03
